@@ -254,3 +254,147 @@ Proof.
   intros H st size Hwf Hsz. destruct (H st size Hwf) as [->|(m & ch & Hm & He & ->)]; [exact I|].
   apply (ApiProofs.answer_ok_st_eq (abs m) st size _ He). apply (compose_answer_contract ch m size Hm Hsz).
 Qed.
+
+(* ------------------------------------------------------------------------------------- *)
+(* free                                                                                    *)
+(* ------------------------------------------------------------------------------------- *)
+
+(* a live binding of the abstract map is a live block of a page *)
+Lemma abs_live_at m q b : mem_inv m -> Api.lookup (abs m) q = Some b ->
+  exists cs cp i r, live_at m cs cp i r /\ q = block_addr cs cp i /\ b = blk (bsize (cp_page cp)) r.
+Proof.
+  intros Hm Hl. apply (abs_lookup m q b Hm) in Hl as (u & r & Hin & ->).
+  apply In_live_blocks in Hin as (cs & cp & i & r' & L & E). inversion E; subst. exists cs, cp, i, r'. auto.
+Qed.
+
+(* free removes the block the address resolves to (the free case of C01_refines_map) *)
+Theorem compose_free_refines m p remote m' : mem_inv m -> free_block m p remote = Some m' ->
+  exists q b, Api.lookup (abs m) q = Some b /\ mem_inv m' /\
+              ApiProofs.st_eq (abs m') (Api.free (abs m) q).
+Proof.
+  intros Hm Hf. destruct (free_block_spec m p remote m' Hm Hf) as (cs & cp & b & r & L & _ & Hm' & Hx).
+  exists (block_addr cs cp b), (blk (bsize (cp_page cp)) r).
+  assert (Hin : In (block_addr cs cp b, bsize (cp_page cp), r) (live_blocks m)).
+  { apply In_live_blocks. exists cs, cp, b, r. auto. }
+  split; [apply (abs_lookup m _ _ Hm); exists (bsize (cp_page cp)), r; auto|]. split; [assumption|].
+  destruct (live_block_geometry m _ _ _ Hm Hin) as (Hq & _).
+  unfold Api.free, Api.NULL. assert (E : (block_addr cs cp b =? 0) = false) by (apply N.eqb_neq; lia). rewrite E.
+  apply abs_remove; assumption.
+Qed.
+
+(* the commuting square of free for the address of a live block: mi_free(p) succeeds and the abstract state
+   afterwards is Api.free of the abstract state before (uses compose_free_resolves) *)
+Theorem compose_free_commutes m p b remote : mem_inv m -> Api.lookup (abs m) p = Some b ->
+  exists m', free_block m p remote = Some m' /\ mem_inv m' /\ ApiProofs.st_eq (abs m') (Api.free (abs m) p).
+Proof.
+  intros Hm Hl. destruct (abs_live_at m p b Hm Hl) as (cs & cp & i & r & L & -> & _).
+  destruct (live_inside _ _ _ _ _ Hm L) as (_ & _ & _ & Hbs & _).
+  destruct (free_resolves m cs cp i r (block_addr cs cp i) remote Hm L) as (_ & m' & Hf & Hm' & Hx);
+    [lia|lia|right; reflexivity|apply (resolvable_start m cs cp i r Hm L)|].
+  exists m'. split; [assumption|]. split; [assumption|].
+  assert (Hin : In (block_addr cs cp i, bsize (cp_page cp), r) (live_blocks m)).
+  { apply In_live_blocks. exists cs, cp, i, r. auto. }
+  destruct (live_block_geometry m _ _ _ Hm Hin) as (Hq & _).
+  unfold Api.free, Api.NULL. assert (E : (block_addr cs cp i =? 0) = false) by (apply N.eqb_neq; lia). rewrite E.
+  apply abs_remove; assumption.
+Qed.
+
+(* ------------------------------------------------------------------------------------- *)
+(* C01_refines_map: every operation commutes with abs; mem_inv in all reachable states     *)
+(* ------------------------------------------------------------------------------------- *)
+
+(* the abstract effect of an operation *)
+Definition refines (m : mem) (o : mop) (m' : mem) : Prop :=
+  match o with
+  | MMalloc size _ =>
+      exists p u, size <= u /\ Api.lookup (abs m) p = None /\
+                  ApiProofs.st_eq (abs m') (Api.add (abs m) p (blk u size))
+  | MFree _ | MRemoteFree _ =>
+      exists q b, Api.lookup (abs m) q = Some b /\ ApiProofs.st_eq (abs m') (Api.free (abs m) q)
+  | MCollect _ _ _ | MExtend _ _ | MFreshPage _ _ | MRetire _ _ => ApiProofs.st_eq (abs m') (abs m)
+  end.
+
+Theorem compose_refines m o m' : mem_inv m -> mstep m o = Some m' -> mem_inv m' /\ refines m o m'.
+Proof.
+  intros Hm. destruct o as [size ch|p|p|base idx force|base idx|base bs|base idx]; cbn [mstep refines].
+  - destruct (mmalloc m size ch) as [[m1 p]|] eqn:E; [|discriminate]. intros H; inversion H; subst m1.
+    destruct (mmalloc_post m size ch m' p Hm E) as (Hm' & u & A1 & A2 & A3 & A4 & A5 & A6).
+    split; [assumption|]. exists p, u. split; [assumption|]. split; [|apply abs_add; assumption].
+    destruct (Api.lookup (abs m) p) as [b|] eqn:El; [|reflexivity]. exfalso.
+    apply (abs_lookup m p b Hm) in El as (u2 & r2 & Hin & _). destruct (live_block_geometry m _ _ _ Hm Hin) as (_ & _ & Hu2 & _).
+    destruct (A5 p u2 r2 Hin); lia.
+  - intros Hf. destruct (compose_free_refines m p false m' Hm Hf) as (q & b & H1 & H2 & H3). split; [assumption|]. exists q, b. auto.
+  - intros Hf. destruct (compose_free_refines m p true m' Hm Hf) as (q & b & H1 & H2 & H3). split; [assumption|]. exists q, b. auto.
+  - intros H. destruct (collect_page_spec _ _ _ _ _ Hm H) as (Hm' & Hl). split; [assumption|apply abs_same; assumption].
+  - intros H. destruct (extend_page_spec _ _ _ _ Hm H) as (Hm' & Hl). split; [assumption|apply abs_same; assumption].
+  - destruct (fresh_page m base bs) as [[m1 idx]|] eqn:E; [|discriminate]. intros H; inversion H; subst m1.
+    destruct (fresh_page_spec _ _ _ _ _ Hm E) as (Hm' & Hl & _). split; [assumption|apply abs_same; assumption].
+  - intros H. destruct (retire_page_spec _ _ _ _ Hm H) as (Hm' & Hl). split; [assumption|apply abs_same; assumption].
+Qed.
+
+Theorem mem_inv_run m ops m' : mem_inv m -> mrun m ops = Some m' -> mem_inv m'.
+Proof.
+  revert m. induction ops as [|o r IH]; intros m Hm; cbn [mrun].
+  - intros H; inversion H; subst. assumption.
+  - destruct (mstep m o) as [m1|] eqn:E; [|discriminate]. apply IH. apply (compose_refines m o m1 Hm E).
+Qed.
+
+(* states reachable from the empty memory *)
+Definition reachable (m : mem) : Prop := exists ops, mrun [] ops = Some m.
+
+Theorem compose_reachable_inv m : reachable m -> mem_inv m.
+Proof. intros (ops & H). apply (mem_inv_run [] ops m mem_inv_nil H). Qed.
+
+(* the whole history refines a history of the abstract map *)
+Fixpoint refines_run (m : mem) (ops : list mop) (m' : mem) : Prop :=
+  match ops with
+  | [] => m' = m
+  | o :: r => exists m1, mstep m o = Some m1 /\ refines m o m1 /\ refines_run m1 r m'
+  end.
+
+Theorem compose_refines_run m ops m' : mem_inv m -> mrun m ops = Some m' -> refines_run m ops m'.
+Proof.
+  revert m. induction ops as [|o r IH]; intros m Hm; cbn [mrun refines_run].
+  - intros H; inversion H; reflexivity.
+  - destruct (mstep m o) as [m1|] eqn:E; [|discriminate]. intros H.
+    destruct (compose_refines m o m1 Hm E) as (Hm1 & Hr). exists m1. split; [reflexivity|]. split; [assumption|]. apply IH; assumption.
+Qed.
+
+(* ------------------------------------------------------------------------------------- *)
+(* C01_compose_live_disjoint, in terms of the abstract map                                 *)
+(* ------------------------------------------------------------------------------------- *)
+
+Theorem compose_live_disjoint m q1 b1 q2 b2 : mem_inv m ->
+  Api.lookup (abs m) q1 = Some b1 -> Api.lookup (abs m) q2 = Some b2 -> q1 <> q2 ->
+  q1 + Api.b_usable b1 <= q2 \/ q2 + Api.b_usable b2 <= q1.
+Proof.
+  intros Hm H1 H2 Hne.
+  destruct (abs_live_at m q1 b1 Hm H1) as (cs1 & cp1 & i1 & r1 & L1 & -> & ->).
+  destruct (abs_live_at m q2 b2 Hm H2) as (cs2 & cp2 & i2 & r2 & L2 & -> & ->).
+  unfold blk. cbn [Api.b_usable].
+  apply (live_disjoint m cs1 cp1 i1 r1 cs2 cp2 i2 r2 Hm L1 L2).
+  intros T. inversion T as [[Ea Eb Ec]]. apply Hne.
+  destruct L1 as (Hcs1 & Hcp1 & _). destruct L2 as (Hcs2 & Hcp2 & _). pose proof Hm as (Hnd & _).
+  pose proof (key_inj cs_base m cs1 cs2 Hnd Hcs1 Hcs2 Ea) as ->.
+  pose proof (seg_ok_In _ _ Hm Hcs1) as (_ & _ & _ & _ & _ & Hndp & _).
+  pose proof (key_inj cp_idx _ cp1 cp2 Hndp Hcp1 Hcp2 Eb) as ->. subst i2. reflexivity.
+Qed.
+
+(* every live block of the abstract map lies inside its page area, inside its span, inside its segment *)
+Theorem compose_live_inside m q b : mem_inv m -> Api.lookup (abs m) q = Some b ->
+  exists cs cp c,
+    In cs m /\ In cp (cs_pages cs) /\ In (cp_idx cp, c) (used_spans (fst (cs_st cs))) /\
+    let start := fst (page_area cs (cp_idx cp)) in let psize := snd (page_area cs (cp_idx cp)) in
+    let span_lo := cs_base cs + cp_idx cp * MI_SEGMENT_SLICE_SIZE in
+    let span_hi := cs_base cs + (cp_idx cp + c) * MI_SEGMENT_SLICE_SIZE in
+    start <= q /\ q + Api.b_usable b <= start + psize /\
+    span_lo <= start /\ start + psize = span_hi /\
+    cs_base cs < span_lo /\ span_hi <= cs_base cs + seg_size cs /\
+    Api.b_req b <= Api.b_usable b /\ Api.b_usable b = bsize (cp_page cp).
+Proof.
+  intros Hm Hl. destruct (abs_live_at m q b Hm Hl) as (cs & cp & i & r & L & -> & ->).
+  destruct (live_inside _ _ _ _ _ Hm L) as (c & Hsp & Hi0 & Hbs & Hreq & _ & G1 & G2 & G3 & _ & G5 & G6 & _).
+  destruct L as (Hcs & Hcp & _). exists cs, cp, c. split; [assumption|]. split; [assumption|]. split; [assumption|].
+  cbv zeta. unfold blk. cbn [Api.b_usable Api.b_req]. unfold MI_SEGMENT_SLICE_SIZE in *.
+  repeat split; try assumption; lia.
+Qed.
